@@ -15,6 +15,7 @@ import (
 	"context"
 	"errors"
 	"fmt"
+	"hash/fnv"
 	"io"
 	"mime"
 	"mime/multipart"
@@ -141,6 +142,80 @@ type c10Case struct {
 	real []string
 	// multipart written through a pipe (EnableForceChunkedEncoding) instead of a buffer: same wire content
 	chunked bool
+	// round 6: the client's OBSERVATION switches next to trace / dump above — EnableDebugLog and
+	// DevMode (= EnableDumpAll + EnableDebugLog + EnableTraceAll).  They must not change a single
+	// call of the retry machinery.  Unless a generator fixes them (obsSet) every case of every lane
+	// draws them from a hash of its own content and the session seed (assignObservers).
+	debug, dev, obsSet bool
+}
+
+// obsTok: <debugLog><devMode><trace><dump> for the model line.
+func (tc *c10Case) obsTok() string {
+	b := func(v bool) string {
+		if v {
+			return "1"
+		}
+		return "0"
+	}
+	return b(tc.debug) + b(tc.dev) + b(tc.trace) + b(tc.dump)
+}
+
+func (tc *c10Case) obsHuman() string {
+	var on []string
+	for _, p := range []struct {
+		v bool
+		n string
+	}{{tc.debug, "DebugLog"}, {tc.dev, "DevMode"}, {tc.trace, "trace"}, {tc.dump, "dump"}} {
+		if p.v {
+			on = append(on, p.n)
+		}
+	}
+	if len(on) == 0 {
+		return "observers=none"
+	}
+	return "observers=" + strings.Join(on, "+")
+}
+
+// assignObservers: half of all cases run unobserved, a quarter with the debug log on, a quarter
+// in DevMode — decided by the case's own content and VERIF_SEED, so that every block of every lane
+// (exhaustive ones included) is crossed with the switches and a different half is watched under
+// every seed.
+func (tc *c10Case) assignObservers() {
+	if tc.obsSet {
+		return
+	}
+	tc.obsSet = true
+	h := fnv.New32a()
+	h.Write([]byte(tc.line("", "", nil)))
+	h.Write([]byte(os.Getenv("VERIF_SEED")))
+	switch (h.Sum32() >> 3) % 4 {
+	case 1:
+		tc.debug = true
+	case 2:
+		tc.dev = true
+	}
+}
+
+// c10Sink swallows what the observers write (debug lines, the client-level dump); the dumper
+// writes from its own goroutine.
+type c10Sink struct {
+	mu    sync.Mutex
+	lines int
+	bytes int
+}
+
+func (k *c10Sink) Write(p []byte) (int, error) {
+	k.mu.Lock()
+	k.bytes += len(p)
+	k.mu.Unlock()
+	return len(p), nil
+}
+func (k *c10Sink) Errorf(string, ...interface{}) {}
+func (k *c10Sink) Warnf(string, ...interface{})  {}
+func (k *c10Sink) Debugf(string, ...interface{}) {
+	k.mu.Lock()
+	k.lines++
+	k.mu.Unlock()
 }
 
 // brokenContract: an upload whose caller-written GetFileContent hands out the same NON-seekable
@@ -284,7 +359,7 @@ func (tc *c10Case) line(lane, mask string, obs []int64) string {
 		c10Pairs(tc.cCookies), c10Multi(tc.cHeaders), c10Multi(tc.cForm), c10Multi(tc.cQuery), b2(tc.allowGet),
 		verifh.Hex(tc.method), urlT, c10Pairs(tc.cookies), c10Multi(tc.headers), c10Multi(tc.form),
 		c10Pairs(tc.ordered), c10Multi(tc.query), b2(tc.multipart), files, body, tc.resendTok(), ivx,
-		c10Pairs(rawQ), c10Pairs(tc.pathParams), c10Pairs(tc.cPathParams), verifh.Hex(tc.baseURL), verifh.Hex(tc.scheme), c10Toks(sets), c10Obs(tc.obsDump), c10Obs(tc.obsTrace), map[bool]string{true: "-", false: "1"}[tc.noBodyObs], pre}, " ")
+		c10Pairs(rawQ), c10Pairs(tc.pathParams), c10Pairs(tc.cPathParams), verifh.Hex(tc.baseURL), verifh.Hex(tc.scheme), c10Toks(sets), c10Obs(tc.obsDump), c10Obs(tc.obsTrace), map[bool]string{true: "-", false: "1"}[tc.noBodyObs], pre, tc.obsTok()}, " ")
 }
 
 // urlTemplate splits the RawURL of the case into what the model is given: how it starts, the path
@@ -458,6 +533,15 @@ type c10Run struct {
 	sendStartRA []int        // RetryAttempt when each Do call begins
 	sendWires   []int        // len(wires) when each Do call begins
 	unrepAt     int          // len(wires) when a callback installed an unreplayable body / upload, +1 (0: never)
+	client      *Client
+	sink        *c10Sink // what the observers wrote
+}
+
+// stopObservers ends the client-level dumper goroutine DevMode started.
+func (x *c10Run) stopObservers() {
+	if x.client != nil && x.tc.dev {
+		x.client.DisableDumpAll()
+	}
 }
 
 // install: a middleware / hook changes the KIND of the body while the call is in flight.
@@ -799,12 +883,17 @@ func (x *c10Run) hookStub(id int) RetryHookFunc {
 	}
 }
 
-// c10StubInterval: the stubs numbered 100 and up are "Retry-After style" — they read the response
+// stubInterval: the stubs numbered 100 and up are "Retry-After style" — they read the response
 // they are handed (which must be the response of the attempt just made).
-func c10StubInterval(id int) GetRetryIntervalFunc {
+// Those numbered 200 and up have STATE: a schedule that is consumed one step per call (the
+// answer depends on how many interval calls the run has made so far) — whoever calls the
+// interval function once more than the loop needs shifts every later answer.
+func (x *c10Run) stubInterval(id int) GetRetryIntervalFunc {
 	return func(resp *Response, attempt int) time.Duration {
 		d := id*1000 + attempt
-		if id >= 100 && resp != nil && resp.Response != nil {
+		if id >= 200 {
+			d += 13 * len(x.ivAtt)
+		} else if id >= 100 && resp != nil && resp.Response != nil {
 			d += 7 * resp.StatusCode
 		}
 		return time.Duration(d)
@@ -827,7 +916,7 @@ func (x *c10Run) applyOps(ops []string, c *Client, r *Request) {
 			v, _ := strconv.Atoi(arg[1:])
 			switch arg[0] {
 			case 'f':
-				f = c10StubInterval(v)
+				f = x.stubInterval(v)
 			case 'x':
 				if r != nil {
 					r.SetRetryFixedInterval(time.Duration(v))
@@ -884,7 +973,18 @@ func (x *c10Run) applyOps(ops []string, c *Client, r *Request) {
 // build configures a real client and request as the case says.
 func (x *c10Run) build(dir string) (*Client, *Request) {
 	tc := x.tc
+	tc.assignObservers()
 	c := C()
+	x.client = c
+	x.sink = &c10Sink{}
+	c.SetLogger(x.sink)
+	if tc.debug {
+		c.EnableDebugLog()
+	}
+	if tc.dev {
+		c.getDumpOptions().Output = x.sink
+		c.DevMode()
+	}
 	c.httpClient.Transport = x
 	c.AllowGetMethodPayload = tc.allowGet
 	c.SetJsonUnmarshal(func(data []byte, v interface{}) error {
@@ -1108,6 +1208,7 @@ func (x *c10Run) build(dir string) (*Client, *Request) {
 
 func (x *c10Run) exec(dir string) {
 	_, r := x.build(dir)
+	defer x.stopObservers()
 	defer x.cancel()
 	defer func() {
 		for _, c := range x.closers {
@@ -1749,8 +1850,8 @@ func c10Finish(s *verifh.Session, recs []c10Rec) {
 	}
 	for _, i := range order {
 		r := recs[i]
-		human := fmt.Sprintf("clientOps=%v reqOps=%v conds=%v hooks=%v after=%v script=%v %s %s body=%q files=%d -> %s",
-			r.tc.clientOps, r.tc.reqOps, r.tc.conds, r.tc.hooks, r.tc.after, r.tc.script, r.tc.method, r.tc.url, r.tc.body, len(r.tc.files), c10Short(r.impl))
+		human := fmt.Sprintf("%s clientOps=%v reqOps=%v conds=%v hooks=%v after=%v script=%v %s %s body=%q files=%d -> %s",
+			r.tc.obsHuman(), r.tc.clientOps, r.tc.reqOps, r.tc.conds, r.tc.hooks, r.tc.after, r.tc.script, r.tc.method, r.tc.url, r.tc.body, len(r.tc.files), c10Short(r.impl))
 		if r.tc.sibKind != 0 {
 			human = fmt.Sprintf("sibling(kind %d, configured after the request under test)=%v ", r.tc.sibKind, r.tc.sibOps) + human
 		}
@@ -2104,6 +2205,62 @@ func TestVerif_C10_loop(t *testing.T) {
 			s.Count("dyn:resend")
 		}
 	}
+	// OBSERVERS (round 6): every setting of {DebugLog, DevMode, trace, dump} x every interval source
+	// (pure function, Retry-After style, a function with STATE, fixed, backoff, default) at either
+	// level x the ways a retry comes about and ends (default rule, conditions + hooks incl. one that
+	// edits the request, a wait the context interrupts, an interval function that cancels, a re-sent
+	// Request, an interval function installed in flight).  Watching must not add or remove a single
+	// call of a condition, a hook or the interval function: the event log is compared call for call
+	// with the model, whose answer does not depend on the switches (observers_do_not_call_policy),
+	// and the stateful function's answers expose any extra call to the oracle too.
+	for osw := 0; osw < 16; osw++ {
+		for _, iv := range []string{"", "i=f1", "i=f100", "i=f200", "i=x3", "i=b100:100000"} {
+			for lvl := 0; lvl < 2; lvl++ {
+				for sc := 0; sc < 6; sc++ {
+					if !verifh.Thorough() && (osw+sc+lvl)%2 != 0 && osw != 1 && osw != 2 {
+						continue
+					}
+					tc := c10Simple()
+					tc.debug, tc.dev, tc.trace, tc.dump, tc.obsSet = osw&1 != 0, osw&2 != 0, osw&4 != 0, osw&8 != 0, true
+					ops := []string{"n=" + []string{"2", "-1", "5", "-1", "2", "3"}[sc]}
+					if iv != "" {
+						ops = append(ops, iv)
+					}
+					switch sc {
+					case 0: // default rule, two retries
+						tc.script = []string{"t", "t", "s200", "c"}
+					case 1: // conditions + hooks, one of them edits the request; three retries
+						tc.script = []string{"s503", "s503", "t", "s200", "c"}
+						tc.conds, tc.hooks = []string{"G500", "E"}, []string{"N", "H" + verifh.Hex("X-H") + ":" + verifh.Hex("1")}
+						ops = append(ops, "ac0", "ac1", "ah0", "ah1")
+					case 2: // the context is done when the second wait begins
+						tc.script = []string{"t", "T", "s200", "c"}
+						tc.hooks = []string{"N"}
+						ops = append(ops, "ah0")
+					case 3: // the interval function cancels the context when asked about retry 2
+						tc.script = []string{"t", "t", "t", "t", "c"}
+						tc.ivx = 2
+					case 4: // the same Request sent again with a higher count
+						tc.script = []string{"t", "t", "t", "t", "s200", "c", "c"}
+						tc.resend = [][]string{{"n=4"}}
+					case 5: // a hook installs a function with state at retry 1
+						tc.script = []string{"s503", "s503", "s503", "s200", "c"}
+						tc.conds, tc.hooks = []string{"G500"}, []string{"If201@1"}
+						ops = append(ops, "ac0", "ah0")
+					}
+					if lvl == 0 {
+						tc.clientOps = ops
+					} else {
+						tc.reqOps = ops
+					}
+					tc.useSend = (osw+sc)%2 == 0
+					recs = append(recs, c10Exec(tc, dir))
+					s.Count("observers:" + tc.obsTok())
+					s.Count("observers-block")
+				}
+			}
+		}
+	}
 	// random policies
 	n := verifh.N(2500, 120000)
 	for i := 0; i < n; i++ {
@@ -2212,7 +2369,11 @@ func c10RandPolicy(r interface{ Intn(int) int }, tc *c10Case) {
 			case 2:
 				switch r.Intn(4) {
 				case 0:
-					ops = append(ops, "i=f"+strconv.Itoa(1+level*10+r.Intn(3)))
+					id := 1 + level*10 + r.Intn(6)
+					if id%10 > 3 { // a function with state (a schedule consumed per call)
+						id += 200
+					}
+					ops = append(ops, "i=f"+strconv.Itoa(id))
 				case 1:
 					ops = append(ops, "i=x"+strconv.Itoa(r.Intn(50)))
 				case 2:
@@ -2704,7 +2865,7 @@ func TestVerif_C10_wire(t *testing.T) {
 		tc := &c10Case{}
 		mode := c10RandShape(r, tc, "http://c10.test", true)
 		cnt := "n=" + []string{"-1", "0", "1", "2", "5", "2", "2", "5"}[r.Intn(8)]
-		iv := []string{"i=f1", "i=x0", "i=x3", "i=f2", "i=f100", "i=f101"}[r.Intn(6)]
+		iv := []string{"i=f1", "i=x0", "i=x3", "i=f2", "i=f100", "i=f101", "i=f200", "i=f201"}[r.Intn(8)]
 		if r.Intn(2) == 0 {
 			tc.clientOps = []string{cnt, iv}
 		} else {
